@@ -276,7 +276,7 @@ func runC18Backtrack(c *Ctx) {
 	k4enumerate(nil, nil, atoms, func(m *Model) bool {
 		models++
 		m.Missing = map[string]bool{}
-		it := &k4interp{p: c.P, m: m, mem: map[string]k4val{}, inline: inl}
+		it := &k4interp{p: c.P, m: m, mem: map[string]k4val{}, inline: inl, recurseNew: true}
 		// the eq callback is an opaque function value: its calls are looked up as EQ(i,j)
 		it.opaqueCall = func(args []k4val) (string, bool) {
 			if len(args) == 2 && args[0].kind == 2 && args[1].kind == 2 {
